@@ -103,11 +103,16 @@ DupWithin(f) == \E i, j \in SingleIdx(f) :
 Zero == [f |-> "", n |-> 0, i |-> 0, e |-> 0]
 Val(f, n, i, e) == [f |-> f, n |-> n, i |-> i, e |-> e]
 
-NoFail == [c |-> "", f |-> "", n |-> 0, md |-> FALSE, from |-> "", mk |-> {}]
-Failure(c, f, n, md, from, mk) == [c |-> c, f |-> f, n |-> n, md |-> md, from |-> from, mk |-> mk]
+\* a failure being propagated: class c, root cause (f, n), md = "the chain contains a
+\* missing-dependencies error", from = the function whose call just failed, mk = missing keys,
+\* path = one entry [k, f, g, d] per wrapping level, innermost first: parameter key k could not be
+\* built because calling f failed (g: through a group parameter; d: f is a decorator)
+NoFail == [c |-> "", f |-> "", n |-> 0, md |-> FALSE, from |-> "", mk |-> {}, path |-> <<>>]
+Failure(c, f, n, md, from, mk) == [c |-> c, f |-> f, n |-> n, md |-> md, from |-> from, mk |-> mk, path |-> <<>>]
 
 NoCall == [op |-> "", f |-> "", s |-> "", active |-> FALSE, pre |-> {}]
-Ret(v, f, n, mk) == [v |-> v, f |-> f, n |-> n, mk |-> mk]
+Ret(v, f, n, mk) == [v |-> v, f |-> f, n |-> n, mk |-> mk, vp |-> <<>>]
+RetP(v, f, n, mk, vp) == [v |-> v, f |-> f, n |-> n, mk |-> mk, vp |-> vp]
 
 -----------------------------------------------------------------------------
 (* Registrations as the stores see them *)
@@ -388,12 +393,15 @@ Unwind ==
           /\ stack' = SetTop([Top EXCEPT !.args[TopJ] = <<Zero>>, !.pi = @ + 1])
           /\ fail' = NoFail
           /\ UNCHANGED <<cur, ret>>
-     ELSE IF Len(stack) = 1
-     THEN Finish(Ret(IF fail.c = "fail" /\ fail.f = Top.f THEN "invokeerr" ELSE fail.c,
-                     fail.f, fail.n, fail.mk))
-     ELSE /\ stack' = Pop
-          /\ fail' = [fail EXCEPT !.from = Top.f]
-          /\ UNCHANGED <<cur, ret>>
+     ELSE LET step == IF fail.from = "" THEN <<>>
+                      ELSE <<[k |-> TopP.k, f |-> fail.from, g |-> TopP.m \in {"grp", "soft"},
+                              d |-> Kind(fail.from) = "dec"]>>
+          IN
+          IF Len(stack) = 1
+          THEN Finish(RetP(fail.c, fail.f, fail.n, fail.mk, fail.path \o step))
+          ELSE /\ stack' = Pop
+               /\ fail' = [fail EXCEPT !.from = Top.f, !.path = @ \o step]
+               /\ UNCHANGED <<cur, ret>>
   /\ UNCHANGED <<ci, opt, created, reg, decs, vals, dvals, grps, dgrps, called, dcalled,
                  verified, execs, okn, tried, ninv, nfault, log>>
 
